@@ -199,6 +199,14 @@ def main(spec, argv):
                     counters[kind + ':' + key] = counters.get(kind + ':' + key, 0) + 1
                     if kind == 'note' or key in seen_keys or len(seen_keys) > 12:
                         continue
+                    # a listed finding is recognised on the unshrunk case already; it must not consume the key, or a
+                    # different violation with the same key (another analysis, another call site) would be hidden
+                    kf0 = spec.classify_known(st, c, i_, reason, known)
+                    if kf0 is not None:
+                        line = 'KNOWN-FINDING: property=%s %s' % (prop, kf0['what'])
+                        if line not in known_lines:
+                            known_lines.append(line)
+                        continue
                     seen_keys.add(key)
                     small = c
                     if spec.shrinkable():
